@@ -13,11 +13,13 @@ META['bounds'] = {'quick': 'object domain 2^s, s <= 3; every object state in the
                   'thorough': 's <= 5, ncols 1..3'}
 META['assumptions'] = C03.META['assumptions'] + ['state classes are established by one earlier call (extendPol of each size; NTT/INTT to exercise the frame assertion); the frame assertion (roots, powTwoInv, s, nThreads, extension unchanged) is checked after every call']
 def hname(h):
-    return 'fresh' if not h else '+'.join('%s%s' % (k, ('N%d' % (1 << a_)) if k == 'ext' else ('n%d' % (1 << d))) for (k, d, a_, nc) in h)
+    return 'fresh' if not h else '+'.join('%s%s' % (k, ('N%d' % (1 << a_)) if k.startswith('ext') else ('n%d' % (1 << d))) for (k, d, a_, nc) in h)
 def obligations(ctx):
     S = 5 if ctx.thorough else 3; C = 3 if ctx.thorough else 2; obs = []
     for s_ in range(0, S + 1):
         calls = [('ext', min(a + 1, S + 1), a, 1) for a in range(0, s_ + 1)] + [('ntt', s_, None, 1), ('intt', max(s_ - 1, 0), None, 2)]
+        # the same calls with a caller-provided scratch buffer (a different code path through allocation and restore logic); N_ext inside and outside the object's own domain
+        calls += [('extb', a + 1, a, 1) for a in range(0, s_ + 1) if a + 1 <= S + 1][:3] + [('nttb', s_, None, 1)]
         states = ntt.discover_states(ctx, s_, calls, max_depth=3, max_states=16 if not ctx.thorough else 24)
         for (h, _) in states:
             if not h: continue       # the fresh object is C03-C05
